@@ -247,4 +247,28 @@ theorem waits_as_long_as_it_takes (wt : F → F) (endTime : F) (wr : WaitR F) (b
 
 end Waiting
 
+section Settings
+variable {K : Type} [Num K]
+
+
+/-- **A setting is no reason to stop waiting**: passing a setting on to the rhythm leaves the waiting
+wrapper exactly as it was - who is awaited, who was early, the return-to-main-loop flag. -/
+theorem setting_keeps_waiting (wt : K → K) (ct : K) (w : World K) (key : String) (v : SVal) :
+    (World.applyOut wt ct w (.rSetting key v)).rh.wait = w.rh.wait := by
+  unfold World.applyOut
+  simp only []
+  split
+  · rfl
+  · split
+    · split
+      · split <;> rfl
+      · rfl
+    · split
+      · split
+        · split <;> rfl
+        · rfl
+      · rfl
+
+end Settings
+
 end Wheatley.C09
